@@ -206,7 +206,7 @@ class SingleDeletionSweep(Contract):
     symbolic = False
     has_native = True
     props = ("C19",)
-    bounded_scope = "one reference file (nested groups, points, curve with property group, float/text/referenced data with colour/value maps): every single deletion of an optional attribute, of the Root link, of a property-group block, of a colour/value map and of an empty child container; unaffected entities compared with the intact file"
+    bounded_scope = "one reference file (nested groups, points, curve with property group, float/text/referenced data with colour/value maps): every single deletion of an optional attribute, of the Root link, of a property-group block, of a colour/value map, of an attribute of a colour/value map and of an empty child container; plus single deletions of mandatory items (type link, identifier, primitive type): an error or exactly the described entities left out; unaffected entities compared with the intact file"
 
     def _build(self, path):
         from geoh5py.groups import ContainerGroup
@@ -217,7 +217,10 @@ class SingleDeletionSweep(Contract):
             g1 = ContainerGroup.create(ws, name="site")
             g2 = ContainerGroup.create(ws, name="sub_site", parent=g1)
             p = Points.create(ws, name="stations", vertices=np.arange(9.0).reshape(3, 3), parent=g1)
-            p.add_data({"grav": {"values": np.arange(3.0)}})
+            grav = p.add_data({"grav": {"values": np.arange(3.0)}})
+            grav.entity_type.color_map = np.c_[np.linspace(0.0, 2.0, 4), np.arange(4) * 10, np.arange(4) * 20, np.arange(4) * 30, np.ones(4) * 255]
+            p.add_data({"grav2": {"values": np.arange(3.0) + 5}})
+            p.add_data({"grav3": {"values": np.arange(3.0) + 9}})
             p.add_data({"note": {"values": np.array(["a", "b", "c"]), "type": "text"}})
             c = Curve.create(ws, name="line", vertices=np.arange(12.0).reshape(4, 3), parent=g2)
             a = c.add_data({"a": {"values": np.arange(4.0)}})
@@ -231,7 +234,7 @@ class SingleDeletionSweep(Contract):
         with Workspace(path, mode="r") as ws:
             return tree_snapshot(ws)
 
-    NAMES = ("site", "sub_site", "stations", "line", "grav", "note", "a", "b")
+    NAMES = ("site", "sub_site", "stations", "line", "grav", "grav2", "grav3", "note", "a", "b")
 
     @staticmethod
     def _find(f, name):
@@ -250,6 +253,7 @@ class SingleDeletionSweep(Contract):
 
         d = tempfile.mkdtemp()
         targets = [{"kind": "root-link"}]
+        always = []
         try:
             path = os.path.join(d, "ref.geoh5")
             self._build(path)
@@ -271,10 +275,17 @@ class SingleDeletionSweep(Contract):
                     for sub in ("Color map", "Value map"):
                         if sub in t:
                             targets.append({"kind": "type-member", "entity": name, "member": sub})
+                            for k in t[sub].attrs:
+                                always.append({"kind": "type-member-attr", "entity": name, "member": sub, "attr": k})
+                    # mandatory items: the reader may raise, or leave out exactly what the item describes
+                    always.append({"kind": "mandatory-type-link", "entity": name})
+                    if name in ("grav", "a", "line"):
+                        always.append({"kind": "mandatory-attr", "entity": name, "attr": "ID"})
+                        always.append({"kind": "mandatory-type-attr", "entity": name, "attr": "Primitive type" if name in ("grav", "a") else "ID"})
         finally:
             shutil.rmtree(d, ignore_errors=True)
         step = 1 if tier == "thorough" else max(1, len(targets) // 40)
-        for t in targets[::step]:
+        for t in targets[::step] + always:
             yield t
 
     def native_check(self, case):
@@ -296,14 +307,53 @@ class SingleDeletionSweep(Contract):
                         del node.attrs[case["attr"]]
                     elif case["kind"] == "member":
                         del node[case["member"]]
-                    elif case["kind"] == "type-attr":
+                    elif case["kind"] in ("type-attr", "mandatory-type-attr"):
+                        if case["attr"] not in node["Type"].attrs:
+                            return None
                         del node["Type"].attrs[case["attr"]]
+                    elif case["kind"] == "type-member-attr":
+                        del node["Type"][case["member"]].attrs[case["attr"]]
+                    elif case["kind"] == "mandatory-type-link":
+                        del node["Type"]
+                    elif case["kind"] == "mandatory-attr":
+                        del node.attrs[case["attr"]]
                     else:
                         del node["Type"][case["member"]]
+            mandatory = case["kind"].startswith("mandatory")
             try:
                 got = self._snapshot(path)
             except Exception as exc:
+                if mandatory:
+                    return None  # an error is an allowed answer to a missing mandatory item
                 return f"file no longer opens after deleting optional item {case}: {type(exc).__name__}: {exc}"
+            if mandatory:
+                # what the item describes: the entity (or all entities of its type) and their descendants
+                described = {owner_uid}
+                if case["kind"] == "mandatory-type-attr":
+                    described |= {u for u, dsc in ref.items() if dsc["class"] == ref[owner_uid]["class"]}
+                grow = True
+                while grow:
+                    grow = False
+                    for u, dsc in ref.items():
+                        if u not in described and dsc["parent"] in described:
+                            described.add(u)
+                            grow = True
+                for uid, desc in ref.items():
+                    if uid in described:
+                        continue
+                    if uid not in got:
+                        return f"deleting the mandatory item {case} also lost {desc['class']} '{desc['name']}', which it does not describe"
+                    for k, v in desc.items():
+                        if k == "children":
+                            # others are kept; the described entity may be missing or come back under another
+                            # identifier (its own stored identifier is what was deleted), never a stranger from elsewhere
+                            if (set(got[uid].get(k, [])) - set(v)) & set(ref) or (set(v) - set(got[uid].get(k, []))) - described:
+                                return f"deleting the mandatory item {case} changed the children of {desc['class']} '{desc['name']}': {v} -> {got[uid].get(k)}"
+                        elif k == "property_groups":
+                            continue  # groups listing a left-out data may shrink
+                        elif got[uid].get(k) != v:
+                            return f"deleting the mandatory item {case} altered {desc['class']} '{desc['name']}'.{k}: {v!r} -> {got[uid].get(k)!r}"
+                return None
             root_uid = [u for u, dsc in ref.items() if dsc["parent"] == "None"][0]
             shares_type = set()
             if case["kind"].startswith("type"):
